@@ -23,6 +23,7 @@ import (
 
 	sentinel "github.com/alibaba/sentinel-golang/api"
 	"github.com/alibaba/sentinel-golang/core/base"
+	"github.com/alibaba/sentinel-golang/core/config"
 	"github.com/alibaba/sentinel-golang/core/stat"
 	"github.com/alibaba/sentinel-golang/core/system"
 	"github.com/alibaba/sentinel-golang/core/system_metric"
@@ -41,6 +42,7 @@ type Interp struct {
 	shift     uint64
 	last      uint64 // last real virtual time used, 0 = none yet
 	lastRules []*system.Rule
+	manySeq   int
 }
 
 func New() vh.Interp {
@@ -68,6 +70,8 @@ func (it *Interp) Reset() {
 	system_metric.SetSystemCpuUsage(system_metric.NotRetrievedCpuUsageValue)
 	stat.ResetResourceNodeMap()
 	it.lastRules = nil
+	it.manySeq = 0
+	config.ResetGlobalConfig(config.NewDefaultConfig())
 	it.started = false
 	it.caseNow = 0
 	it.shift = 0
@@ -219,6 +223,43 @@ func (it *Interp) Step(t []string, op string) string {
 			}
 			delete(it.live, t[1])
 		}
+		return ""
+	case "many":
+		// n fresh resource names (per case), each entered with the default traffic type and exited at once:
+		// the resource node map grows past base.DefaultMaxResourceAmount when n is large enough
+		if len(t) != 2 || !it.started {
+			return "bad-op"
+		}
+		n, err := strconv.Atoi(t[1])
+		if err != nil || n < 0 {
+			return "bad-op"
+		}
+		for k := 0; k < n; k++ {
+			e, blk := sentinel.Entry("many-" + strconv.Itoa(it.manySeq))
+			it.manySeq++
+			if blk != nil {
+				return "PANIC outbound entry of `many` blocked: " + blk.BlockType().String()
+			}
+			e.Exit()
+		}
+		return ""
+	case "config":
+		// another valid metric statistic shape in the global configuration (what InitWithConfig would leave behind)
+		if len(t) != 3 {
+			return "bad-op"
+		}
+		sc, err1 := strconv.ParseUint(t[1], 10, 32)
+		iv, err2 := strconv.ParseUint(t[2], 10, 32)
+		if err1 != nil || err2 != nil {
+			return "bad-op"
+		}
+		cfg := config.NewDefaultConfig()
+		cfg.Sentinel.Stat.MetricStatisticSampleCount = uint32(sc)
+		cfg.Sentinel.Stat.MetricStatisticIntervalMs = uint32(iv)
+		if base.CheckValidityForReuseStatistic(uint32(sc), uint32(iv), cfg.Sentinel.Stat.GlobalStatisticSampleCountTotal, cfg.Sentinel.Stat.GlobalStatisticIntervalMsTotal) != nil {
+			return "bad-op"
+		}
+		config.ResetGlobalConfig(cfg)
 		return ""
 	case "rules":
 		if len(t) != 1 {
